@@ -141,6 +141,51 @@ def lib_case(case):
     return out
 
 
+ALT_CONFIG = "dry:\n  enabled: true\n  min_duplicate_lines: 4\nnesting:\n  max_nesting_depth: 1\nmagic-numbers:\n  allowed_numbers: [0]\n  max_small_integer: 1\nsrp:\n  max_methods: 1\n"
+
+
+def used_case(case):
+    """Runs in a forked child: two Orchestrator objects with the same history (an earlier run, then a configuration loaded the way the CLI's
+    --config does it), one asked sequentially, one with the worker pool."""
+    from pathlib import Path
+
+    import src.orchestrator.core as core
+
+    root = runner.new_dir("u")
+    files = dict(case["files"])
+    files[".thailint.yaml"] = case["config"]
+    runner.write_tree(root, files)
+    alt = os.path.join(root, ".git", "alt.yaml")
+    with open(alt, "w", encoding="utf-8") as f:
+        f.write(ALT_CONFIG)
+    os.chdir(root)
+    os.environ["THAILINT_VERIF_FAILLOG"] = os.path.join(root, ".git", "faillog")
+    os.dup2(os.open(os.path.join(root, ".git", "stderr.log"), os.O_WRONLY | os.O_CREAT | os.O_APPEND, 0o600), 2)
+    paths = [Path(root) / f for f in sorted(case["files"])]
+
+    def tup(v):
+        return [v.rule_id, os.path.relpath(str(v.file_path), root) if os.path.isabs(str(v.file_path)) else str(v.file_path),
+                v.line, v.column, v.message, v.severity.value, v.suggestion]
+
+    out = {"n": len(paths)}
+    for mode in ("seq", "par"):
+        o = core.Orchestrator(project_root=Path(root))
+        try:
+            hist = paths[:case["history_files"]]
+            if case["history"] == "seq":
+                o.lint_files(list(hist))
+            elif case["history"] == "par":
+                o.lint_files_parallel(list(hist), max_workers=case["k"])
+            if case["reconfigure"]:
+                o.config = o.config_loader.load(Path(alt))
+            vs = o.lint_files(list(paths)) if mode == "seq" else o.lint_files_parallel(list(paths), max_workers=case["k"])
+            out[mode] = sorted(tup(v) for v in vs)
+        except Exception as e:  # noqa: BLE001
+            out[mode] = None
+            out[mode + "_error"] = "%s: %s" % (type(e).__name__, e)
+    return out
+
+
 def cli_case(case):
     root = runner.new_dir("p")
     cwd = root
@@ -248,6 +293,34 @@ def run(ctx):
             ctx.count("dispatch_events", sum(rec["dispatch"].values()))
             if took_parallel and rec["parent_pid_dispatches"]:
                 ctx.count("parallel_runs_with_parent_dispatch")
+    # objects with a history: an earlier run and/or a configuration loaded after construction (what --config does) - both entry points of the same
+    # object must still agree
+    used_cases = []
+    for j, (hist, reconf, hf) in enumerate([("seq", True, 1), ("seq", True, 99), ("par", True, 99), ("none", True, 0), ("seq", False, 3), ("par", False, 99)]):
+        for k in ([2] if ctx.quick else [1, 2, 4]):
+            n = rng.choice([2 * k, 4 * k + 1, 20])
+            used_cases.append({"files": make_project(rng, n, "u%d%d" % (j, k)), "config": CONFIG, "k": k, "history": hist, "reconfigure": reconf, "history_files": hf,
+                               "id": "lib-used:history-%s:%s:k%d:n%d" % (hist, "reconfigured" if reconf else "same-config", k, n)})
+    outs = runner.pmap(used_case, used_cases, timeout=900, workers=6)
+    for case, o in zip(used_cases, outs):
+        if not o.get("ok"):
+            ctx.inconclusive_if(True, "used-object case %s failed in harness: %s" % (case["id"], str(o)[:400]))
+            continue
+        v = o["value"]
+        ctx.evaluations += 2
+        ctx.count("used_object_comparisons")
+        rep = {"id": case["id"], "k": case["k"], "history": case["history"], "reconfigure": case["reconfigure"]}
+        if v["seq"] is None or v["par"] is None:
+            ctx.discrepancy("used-object:error", "%s: sequential error=%r parallel error=%r" % (case["id"], v.get("seq_error"), v.get("par_error")), rep, case["files"])
+            continue
+        a, b = Counter(map(tuple, v["seq"])), Counter(map(tuple, v["par"]))
+        if a:
+            ctx.nontrivial([case["history"], case["reconfigure"], case["k"], "lib-used"])
+        if a != b:
+            only_seq, only_par = list((a - b).elements()), list((b - a).elements())
+            ctx.discrepancy("used-object:" + classify(only_seq, only_par) + (":after-config-load" if case["reconfigure"] else ""),
+                            "%s: %d only sequential (e.g. %r), %d only parallel (e.g. %r)" % (case["id"], len(only_seq), only_seq[:1], len(only_par), only_par[:1]),
+                            dict(rep, expected=only_seq[:5], observed=only_par[:5]), case["files"])
     ctx.obs["distinct_natural_completion_orders"] = orders_nat
     ctx.obs["distinct_forced_completion_orders"] = orders_forced
     # CLI level
